@@ -503,6 +503,101 @@ fn reply_matches(r: &Req, reply: &RV, _values: &BTreeMap<String, String>) -> boo
     }
 }
 
+
+/// Layer B, slow reader: a client that does not read for a while gets large replies; the proxy's
+/// socket fills up, its flush has to be resumed later without any new reply to write.
+pub async fn run_layer_b_slow_reader(rep: &mut Report, sub_seed: u64) {
+    use std::os::unix::io::AsRawFd;
+    let mut rng = Rng::new(sub_seed);
+    let net = SimNet::new();
+    net.add_redis("127.0.0.1:6000");
+    let proxy = net.add_proxy("127.0.0.1:7000", &ProxyOpts::default());
+    let listener = match tokio::net::TcpListener::bind("127.0.0.1:0").await {
+        Ok(l) => l,
+        Err(e) => return rep.inconclusive(format!("cannot bind loopback: {}", e)),
+    };
+    let addr = match listener.local_addr() {
+        Ok(a) => a,
+        Err(e) => return rep.inconclusive(e.to_string()),
+    };
+    let sndbuf: libc::c_int = *rng.pick(&[1024, 4096, 16384]);
+    let proxy2 = proxy.clone();
+    let server = tokio::spawn(async move {
+        if let Ok((sock, _)) = listener.accept().await {
+            let _ = sock.set_nodelay(true);
+            unsafe {
+                libc::setsockopt(sock.as_raw_fd(), libc::SOL_SOCKET, libc::SO_SNDBUF, &sndbuf as *const _ as *const libc::c_void, std::mem::size_of::<libc::c_int>() as libc::socklen_t);
+            }
+            let session = Arc::new(proxy2.new_session());
+            let _ = handle_session(session, sock, None).await;
+        }
+    });
+    let k = rng.urange(1, 6);
+    let sizes: Vec<usize> = (0..k).map(|_| *rng.pick(&[7000usize, 20_000, 70_000, 200_000]) + rng.usize_below(997)).collect();
+    let payloads: Vec<Vec<u8>> = sizes.iter().enumerate().map(|(i, n)| {
+        let mut p = format!("slow{}-{}-", sub_seed, i).into_bytes();
+        while p.len() < *n {
+            p.push(b'a' + (p.len() % 23) as u8);
+        }
+        p
+    }).collect();
+    let delay = rng.range(100, 600);
+    let result: Result<(usize, usize), String> = async {
+        let sock = tokio::net::TcpSocket::new_v4().map_err(|e| e.to_string())?;
+        let _ = sock.set_recv_buffer_size(*rng.pick(&[1024u32, 4096]));
+        let mut sock = sock.connect(addr).await.map_err(|e| e.to_string())?;
+        let mut bytes = vec![];
+        for p in payloads.iter() {
+            RV::Array(Some(vec![RV::Bulk(Some(b"ECHO".to_vec())), RV::Bulk(Some(p.clone()))])).encode(&mut bytes);
+        }
+        let (mut rd, mut wr) = sock.split();
+        let writer = async {
+            let _ = wr.write_all(&bytes).await;
+            let _ = wr.flush().await;
+        };
+        let reader = async {
+            // the client is busy elsewhere first
+            tokio::time::sleep(Duration::from_millis(delay)).await;
+            let want: usize = payloads.iter().map(|p| RV::Bulk(Some(p.clone())).encoded().len()).sum();
+            let mut got: Vec<u8> = Vec::with_capacity(want);
+            let mut chunk = vec![0u8; 65536];
+            let mut idle = 0;
+            while got.len() < want && idle < 3 {
+                match tokio::time::timeout(Duration::from_secs(5), rd.read(&mut chunk)).await {
+                    Err(_) => idle += 1,
+                    Ok(Ok(0)) => break,
+                    Ok(Ok(n)) => {
+                        got.extend_from_slice(&chunk[..n]);
+                        idle = 0;
+                    }
+                    Ok(Err(e)) => return Err(format!("read: {}", e)),
+                }
+            }
+            let mut expect = vec![];
+            for p in payloads.iter() {
+                RV::Bulk(Some(p.clone())).encode(&mut expect);
+            }
+            if got.len() == want && got != expect {
+                return Err("the reply bytes differ from the requested echoes".to_string());
+            }
+            Ok((got.len(), want))
+        };
+        let (_, r) = futures::future::join(writer, reader).await;
+        r
+    }
+    .await;
+    server.abort();
+    rep.evaluations += 1;
+    rep.count("layer_b_slow_reader_sessions", 1);
+    rep.distinct(format!("Bslow|{}|{}|{}", k, sndbuf, sizes.iter().map(|s| s / 10_000).sum::<usize>()).as_bytes());
+    let ctx = json!({"sub_seed": sub_seed, "layer": "B-slow-reader", "replies": k, "reply_sizes": sizes, "proxy_so_sndbuf": sndbuf, "client_starts_reading_after_ms": delay});
+    match result {
+        Ok((got, want)) if got == want => rep.count("layer_b_slow_reader_bytes", got as u64),
+        Ok((got, want)) => rep.violation("C08:reply-stalled-for-a-slow-reader", format!("{} of {} reply bytes arrived, then nothing for 15 s although the connection is open and the client is reading", got, want), ctx),
+        Err(e) => rep.violation("C08:session-broken", e, ctx),
+    }
+}
+
 pub async fn run_layer_b(rep: &mut Report, sub_seed: u64) {
     let mut rng = Rng::new(sub_seed);
     let net = SimNet::new();
@@ -711,7 +806,11 @@ pub fn run(rep: &mut Report) {
                 if i >= nb {
                     break;
                 }
-                rt.block_on(run_layer_b(&mut local, Rng::sub_seed(seed ^ 0xB, i)));
+                if i % 6 == 5 {
+                    rt.block_on(run_layer_b_slow_reader(&mut local, Rng::sub_seed(seed ^ 0xB5, i)));
+                } else {
+                    rt.block_on(run_layer_b(&mut local, Rng::sub_seed(seed ^ 0xB, i)));
+                }
             }
             local
         }));
@@ -727,6 +826,7 @@ pub fn run(rep: &mut Report) {
     rep.floor("layer_a_replies_joined_with_backend_log", 10_000);
     rep.floor("layer_a_error_results", 100);
     rep.floor("layer_b_sessions", 100);
+    rep.floor("layer_b_slow_reader_sessions", 10);
     rep.floor("layer_b_requests", 2000);
     rep.assumptions.push("layer A runs under virtual time; layer B uses real loopback TCP and real time with small injected delays; a reply of type error is accepted for any request (its backend exchange failed)".to_string());
 }
